@@ -95,12 +95,12 @@ def ref_add_bib(bundle, target_nums, kid, alg, scope, addl_protected=b'', src=No
     return bundle
 
 
-def ref_add_bcb(bundle, target_nums, kid, alg, scope, ivs, addl_protected=b'', src=None, addl_unprotected=b''):
+def ref_add_bcb(bundle, target_nums, kid, alg, scope, ivs, addl_protected=b'', src=None, addl_unprotected=b'', sec_flags=1):
     ''' Reference security source: encrypt the targets (COSE_Encrypt0) and append the BCB. '''
     bundle = copy.deepcopy(bundle)
     src = src or bundle['primary']['src']
     params = _params(scope, addl_protected, addl_unprotected)
-    sec_blk = dict(type=12, num=fresh_block_num(bundle), flags=1, crc_type=0, data='')
+    sec_blk = dict(type=12, num=fresh_block_num(bundle), flags=sec_flags, crc_type=0, data='')
     asb = {'targets': list(target_nums), 'ctx': 3, 'flags': 1 if params else 0, 'src': src, 'params': params or None, 'results': []}
     for num, iv in zip(target_nums, ivs):
         target = next(b for b in bundle['blocks'] if b['num'] == num)
